@@ -349,6 +349,34 @@ func runLINKNIL(c *Ctx) {
 			}
 			continue
 		}
+		// the test may sit in the caller of an extracted helper that is handed the entry / node
+		{
+			as := ir.Sym(s.arg)
+			deps := ir.LoadDeps(s.arg)
+			if ok, why := viaCallers(c, fn, s.call, func(i ssa.Instruction) bool {
+				st, isSt := i.(*ssa.Store)
+				return isSt && ir.MayClobber(ir.Sym(st.Addr), deps)
+			}, func(rw func(string) string, at ssa.Instruction) bool {
+				want := rw(as)
+				return ir.FlowFact(at, func(fc ir.Fact) bool {
+					tv, tnn, isNil := ir.NilTest(fc.Cond)
+					return isNil && fc.Truth == tnn && ir.Sym(tv) == want
+				}, func(i ssa.Instruction) bool {
+					st, isSt := i.(*ssa.Store)
+					if !isSt {
+						return false
+					}
+					var d2 []string
+					for _, d := range deps {
+						d2 = append(d2, rw(d))
+					}
+					return ir.MayClobber(ir.Sym(st.Addr), d2)
+				})
+			}); ok {
+				c.OK(pos, what, "tested non-nil "+why, false)
+				continue
+			}
+		}
 		_, why := ir.GuardedNonNil(s.arg, s.call)
 		c.Violation(fn, pos, "load of "+linkDesc(s.arg),
 			"the link that is followed is not the link that was tested non-nil ("+why+"): a nil link makes load fail, and a tested-but-different slot means children are skipped or a nil child is followed")
